@@ -50,10 +50,32 @@ pub struct ByteParser {
     pub call: Box<dyn Fn(&[u8]) -> Result<bool, Failure>>,
 }
 
+/// 'capacity overflow' is the panic of an allocation sized by a declared length. The known finding is about
+/// declared *string* lengths (cbor_event); anything else that reserves memory from a declared count (a container
+/// head, a length field of the library's own) gets another signature, so it is not hidden behind the finding.
+fn panic_signature(cause: &str, input: &[u8]) -> String {
+    if cause.contains("capacity overflow") {
+        let decoded;
+        let raw: &[u8] = if !input.is_empty() && input.len() % 2 == 0 && input.iter().all(|c| c.is_ascii_hexdigit()) {
+            decoded = hex::decode(input).unwrap_or_default();
+            &decoded
+        } else {
+            input
+        };
+        if cbor::scan(raw).max_overdeclared_string > isize::MAX as u64 {
+            format!("panic/{}/declared-string-length", cause)
+        } else {
+            format!("panic/{}/no-oversized-string-in-input", cause)
+        }
+    } else {
+        format!("panic/{}", cause)
+    }
+}
+
 fn guard<T>(name: &str, what: &str, input: &[u8], f: impl FnOnce() -> T) -> Result<T, Failure> {
     catch(f).map_err(|p| {
         Failure::new(
-            format!("panic/{}", p.cause()),
+            panic_signature(&p.cause(), input),
             format!("{} on {} ({} bytes: {}) panicked at {}:{}: {}", name, what, input.len(), hex::encode(&input[..input.len().min(200)]), p.file, p.line, p.msg),
         )
     })
@@ -104,7 +126,10 @@ fn replayed_malformed_input(name: &str, input: &[u8], out: &[u8], e: &cbor::Cbor
     let a = &out[off..(off + 3).min(out.len())];
     let b = &out[off.saturating_sub(1)..(off + 1).min(out.len())];
     let occurs = |w: &[u8]| w.len() >= 2 && input.windows(w.len()).any(|x| x == w);
-    if occurs(a) || occurs(b) {
+    // ... or the whole malformed input is embedded verbatim in the output (byte-preserving types: the defect
+    // may then be reported far from the stored bytes, e.g. as a truncation at the very end of the output)
+    let embedded = input.len() >= 2 && out.len() >= input.len() && out.windows(input.len()).any(|x| x == input);
+    if occurs(a) || occurs(b) || embedded {
         return Some(Failure::new(
             "reserialize/replays-malformed-input",
             format!("{} accepted {} (not well-formed CBOR) and replays the stored bytes: {} ({})", name, hex::encode(&input[..input.len().min(200)]), hex::encode(&out[..out.len().min(200)]), e),
@@ -151,7 +176,9 @@ fn well_formed(name: &str, input: &[u8], out: &[u8]) -> bool {
         if replayed_malformed_input(name, input, out, &e).is_some() {
             panic!("VERIF-REPLAY {} accepted {} (not well-formed CBOR) and replays the stored bytes: {}", name, hex::encode(&input[..input.len().min(100)]), hex::encode(&out[..out.len().min(100)]));
         }
-        panic!("VERIF-MALFORMED {} re-serializes {} to {}", name, hex::encode(&input[..input.len().min(100)]), hex::encode(&out[..out.len().min(100)]));
+        let full = std::env::var("VERIF_FULL").is_ok();
+        let (li, lo) = if full { (input.len(), out.len()) } else { (input.len().min(100), out.len().min(100)) };
+        panic!("VERIF-MALFORMED {} re-serializes {} to {} ({}; input {} bytes, output {} bytes)", name, hex::encode(&input[..li]), hex::encode(&out[..lo]), e, input.len(), out.len());
     }
     true
 }
@@ -209,6 +236,10 @@ fn extra_byte_parsers() -> Vec<ByteParser> {
         bp!("FixedTransaction::new(body,witness_set)", |i| {
             let cut = if i.is_empty() { 0 } else { (i[0] as usize).min(i.len() - 1) };
             let (a, b) = i[1.min(i.len())..].split_at(cut.min(i.len().saturating_sub(1)));
+            // the declared-length pre-filter has to see the two byte strings the library is handed
+            if excluded_by_prefilter(a) || excluded_by_prefilter(b) {
+                return false;
+            }
             FixedTransaction::new(a, b, true).map(|t| {
                 let out = t.to_bytes();
                 well_formed("FixedTransaction::new", i, &out);
@@ -282,7 +313,7 @@ pub struct TextParser {
 fn tguard<T>(name: &str, input: &str, f: impl FnOnce() -> T) -> Result<T, Failure> {
     catch(f).map_err(|p| {
         let shown: String = input.chars().take(200).collect();
-        Failure::new(format!("panic/{}", p.cause()), format!("{}({:?}) panicked at {}:{}: {}", name, shown, p.file, p.line, p.msg))
+        Failure::new(panic_signature(&p.cause(), input.as_bytes()), format!("{}({:?}) panicked at {}:{}: {}", name, shown, p.file, p.line, p.msg))
     })
 }
 
